@@ -13,8 +13,12 @@ import ModVerif.Model.Tile
 import ModVerif.Proofs.TieFnTile
 import ModVerif.Proofs.TieFnTilePath
 import ModVerif.Proofs.TieFnTileParse
+import ModVerif.Proofs.TieFnTileNew
+import ModVerif.Proofs.TieFnTileHash
+import ModVerif.Proofs.TieFnTileRead
+import ModVerif.Proofs.TlogTH
 namespace ModVerif.Tie.FnTile
-open ModVerif ModVerif.GoRt ModVerif.TieFnTile
+open ModVerif ModVerif.GoRt ModVerif.TieFnTile ModVerif.TieFnTlogInt
 
 /-- `tileParent(t, k, n)` for a tile with non-negative fields (not a data tile), `k ≥ 0`, `0 ≤ n ≤ MaxInt64`.  The range
     hypotheses `h1 … h4` say exactly that the int64 intermediates `t.L + k`, `k * t.H`, `(t.L + k) * t.H` and
@@ -121,6 +125,108 @@ example : (Generated.Tile.ParseTilePath 40 (B "tile/3/data/x001/067")).toOption 
 
 example : (Generated.Tile.ParseTilePath 40 (B "tile/3/4/1067")).toOption = some (default, some "badPathError") ∧
     ptpOut (Tile.parseTilePath (B "tile/3/4/1067")) = (default, some "badPathError") := by
+  constructor <;> decide +kernel
+
+/-- `NewTiles(h, oldTreeSize, newTreeSize)` for EVERY `h < 2^63` (`h ≤ 0` panics on both sides) and tree sizes in
+    `[0, 2^63)`; `ntOut` maps the model's tiles through `toGen` (the model's fuel error is unreachable:
+    `TileAuth.newTilesF_spec`).  The fuel covers the number of level-0 tiles (at most `newTreeSize`) plus the levels. -/
+theorem NewTiles_tie (fuel : Nat) (h old new : Int) (hh : h < 2 ^ 63) (ho0 : 0 ≤ old) (ho : old < 2 ^ 63)
+    (hn0 : 0 ≤ new) (hn : new < 2 ^ 63) (hf : new.toNat + 67 ≤ fuel) :
+    Generated.Tile.NewTiles fuel h old new = ntOut (Tile.newTiles h.toNat old.toNat new.toNat) := by
+  by_cases hle : h ≤ 0
+  · have e : h.toNat = 0 := by omega
+    simp only [Generated.Tile.NewTiles, hle, decide_true, ↓reduceIte, e, Tile.newTiles]
+    rfl
+  · have := NewTiles_eq fuel h.toNat old.toNat new.toNat (by omega) (by omega) (by omega) (by omega) hf
+    rwa [Int.toNat_of_nonneg (by omega : 0 ≤ h), Int.toNat_of_nonneg ho0, Int.toNat_of_nonneg hn0] at this
+
+example : Generated.Tile.NewTiles 80 2 3 7 = .ok [⟨2, 0, 0, 4⟩, ⟨2, 0, 1, 3⟩, ⟨2, 1, 0, 1⟩] ∧
+    ntOut (Tile.newTiles (2 : Int).toNat (3 : Int).toNat (7 : Int).toNat) = .ok [⟨2, 0, 0, 4⟩, ⟨2, 0, 1, 3⟩, ⟨2, 1, 0, 1⟩] :=
+  ⟨rfl, rfl⟩
+
+section
+variable {H : Type} [DecidableEq H] [Inhabited H] (node : H → H → H) (ofBytes : Bytes → H) (toBytes : H → Bytes)
+
+/-! ### tile data: flat bytes (generated) vs lists of hashes (model)
+
+The hash type `H` is ABSTRACT, `ofBytes : Bytes → H` arbitrary (no hypothesis): `unflat ofBytes data` is the list of the
+complete 32-byte groups of `data`, each through `ofBytes`.  Only `ReadTileData` (which produces bytes) needs
+`toBytes : H → Bytes` with the explicit hypothesis that every hash has 32 bytes. -/
+
+/-- `tileHash(data)` for `len(data) = HashSize * 2^j` (the only lengths it is applied to: `HashFromTile`, the tile
+    authentication): `errOut` turns a model error into a panic (there is none: `TileAuth.tileHash_ptree`).  On every other
+    non-empty length the byte-level code splits inside a hash and eventually panics in `tileHash("")`, the list model is not
+    meaningful there (Model/Tile.lean). -/
+theorem tileHash_tie (j fuel : Nat) (data : Bytes) (hl : data.length = 32 * 2 ^ j) (hf : j < fuel) :
+    Generated.Tile.tileHash node ofBytes fuel data = errOut (Tile.tileHash node (unflat ofBytes data)) :=
+  tileHash_eq node ofBytes j fuel data hl hf
+
+/-- … and on the empty string both sides panic ("bad math in tileHash") -/
+theorem tileHash_tie_nil (fuel : Nat) (hf : 0 < fuel) :
+    Generated.Tile.tileHash node ofBytes fuel [] = errOut (Tile.tileHash node (unflat ofBytes [])) :=
+  tileHash_nil node ofBytes fuel hf
+
+/-- `HashFromTile(t, data, index)` for EVERY model tile (data tiles and out-of-range `H`, `L`, `W` are rejected on both
+    sides), every byte string `data` (any length), `0 ≤ index ≤ MaxInt64 - 1`.  `hftOut` gives `(hash, nil)` for the model's
+    `.ok hash` and `(Hash{}, error)` otherwise, the text chosen by `hftMsg` among the three `fmt.Errorf` formats (the model
+    has the single kind `badTile` for them). -/
+theorem HashFromTile_tie (fuel : Nat) (t : Tile.Tile) (data : Bytes) (index : Int) (h0 : 0 ≤ index)
+    (hr : index < 2 ^ 63 - 1) (hf : 64 ≤ fuel) :
+    Generated.Tile.HashFromTile node ofBytes fuel (toGen t) data index =
+      .ok (hftOut t (data.length / 32) (Tile.hashFromTile node t (unflat ofBytes data) index.toNat)) := by
+  have := HashFromTile_eq node ofBytes fuel t data index.toNat (by omega) hf
+  rwa [Int.toNat_of_nonneg h0] at this
+
+/-- `ReadTileData(t, r)` for an ordinary (non-data) tile with `H ≤ 62`; `size = W`, or `2^H` if `W = 0`; range: `size *
+    HashSize` and the largest stored-hash index of the tile are int64 values.  The reader `r` of the generated code is seen
+    by the model as `readerOf r`; `rtdOut` flattens the model's hashes through `toBytes` (32 bytes each: `hb`) and returns
+    the reader's error / the "wrong number of hashes" text (`readErrOf`) where the model says `Err.reader`. -/
+theorem ReadTileData_tie (hb : ∀ x : H, (toBytes x).length = 32) (fuel : Nat) (t : Tile.Tile)
+    (r : List Int → List H × Option String) (hd : t.data = false) (hh : t.h ≤ 62)
+    (hsz : 32 * (if t.w == 0 then 2 ^ t.h else t.w) < 2 ^ 63)
+    (hr : Tlog.storedHashIndex (t.h * t.l) (t.n <<< t.h + (if t.w == 0 then 2 ^ t.h else t.w) - 1) < 2 ^ 63)
+    (hf : (if t.w == 0 then 2 ^ t.h else t.w) + 65 ≤ fuel) :
+    Generated.Tile.ReadTileData toBytes fuel (toGen t) r =
+      .ok (rtdOut toBytes r t (Tile.readTileData t (readerOf r))) :=
+  ReadTileData_eq toBytes hb fuel t r hd hh hsz hr hf
+
+end
+
+/-! non-vacuity of the hash-level ties: term-algebra hashes, `ofBytes b = TH.leaf b`, tile (H=2, L=0, N=0, W=4) of the
+    7-record example log with data = four 32-byte strings, stored-hash position 3 = (level 1, node 0) -/
+
+/-- four distinguishable 32-byte "hashes" -/
+def exData : Bytes := (List.replicate 32 1 ++ List.replicate 32 2 ++ List.replicate 32 3 ++ List.replicate 32 4 : List UInt8)
+
+instance : Inhabited Tlog.TH := ⟨Tlog.TH.empty⟩
+
+example : (Generated.Tile.tileHash Tlog.TH.node Tlog.TH.leaf 3 (exData.take 64)).toOption =
+      some (Tlog.TH.node (Tlog.TH.leaf (List.replicate 32 1)) (Tlog.TH.leaf (List.replicate 32 2))) ∧
+    (errOut (Tile.tileHash Tlog.TH.node (unflat Tlog.TH.leaf (exData.take 64)))).toOption =
+      some (Tlog.TH.node (Tlog.TH.leaf (List.replicate 32 1)) (Tlog.TH.leaf (List.replicate 32 2))) := by
+  constructor <;> decide +kernel
+
+example : (Generated.Tile.HashFromTile Tlog.TH.node Tlog.TH.leaf 64 (toGen ⟨2, 0, 0, 4, false⟩) exData 2).toOption =
+      some (Tlog.TH.node (Tlog.TH.leaf (List.replicate 32 1)) (Tlog.TH.leaf (List.replicate 32 2)), none) ∧
+    hftOut ⟨2, 0, 0, 4, false⟩ (exData.length / 32)
+        (Tile.hashFromTile Tlog.TH.node ⟨2, 0, 0, 4, false⟩ (unflat Tlog.TH.leaf exData) (2 : Int).toNat) =
+      (Tlog.TH.node (Tlog.TH.leaf (List.replicate 32 1)) (Tlog.TH.leaf (List.replicate 32 2)), none) := by
+  constructor <;> decide +kernel
+
+example : (Generated.Tile.HashFromTile Tlog.TH.node Tlog.TH.leaf 64 (toGen ⟨2, 0, 1, 4, false⟩) exData 2).toOption =
+      some (Tlog.TH.empty, some "index %v is in %v not %v") ∧
+    hftOut ⟨2, 0, 1, 4, false⟩ (exData.length / 32)
+        (Tile.hashFromTile Tlog.TH.node ⟨2, 0, 1, 4, false⟩ (unflat Tlog.TH.leaf exData) (2 : Int).toNat) =
+      (Tlog.TH.empty, some "index %v is in %v not %v") := by
+  constructor <;> decide +kernel
+
+/-- `ReadTileData` with `H := Bytes`, `toBytes = id` over a reader that returns the index as a 32-byte string -/
+def exReader : List Int → List Bytes × Option String := fun idx => (idx.map fun i => List.replicate 32 (UInt8.ofNat i.toNat), none)
+
+example : (Generated.Tile.ReadTileData (H := Bytes) id 80 (toGen ⟨1, 1, 1, 0, false⟩) exReader).toOption =
+      some (List.replicate 32 9 ++ List.replicate 32 12, none) ∧
+    rtdOut (H := Bytes) id exReader ⟨1, 1, 1, 0, false⟩ (Tile.readTileData ⟨1, 1, 1, 0, false⟩ (readerOf exReader)) =
+      (List.replicate 32 9 ++ List.replicate 32 12, none) := by
   constructor <;> decide +kernel
 
 end ModVerif.Tie.FnTile
